@@ -187,7 +187,8 @@ def join_aux(source_name, source_key, source_delete,  # noqa: C901
              target_name, target_key, fields, full, mode):
 
     deduplication = target_key is None
-    fields = fix_fields(fields)
+    # work on a private copy (one per entry): the caller's mapping may be used to build another step
+    fields = fix_fields(dict((name, copy.deepcopy(spec)) for name, spec in fields.items()))
     source_key = KeyCalc(source_key)
     target_key = KeyCalc(target_key) if target_key is not None else target_key
     # We will store db keys as boolean flags:
